@@ -32,6 +32,7 @@ func c20(c *Ctx) {
 	c20R5(c)
 	c20R6(c)
 	c20R7(c)
+	c20R8(c)
 }
 
 func c20R1(c *Ctx) {
@@ -422,4 +423,34 @@ func c20R7(c *Ctx) {
 		}
 		c.R.Ob(rule, "recvMsgPacket:deliver-iff-EOF", ok && n == 1, c.P.Pos(f.F.Pos()), fname(f), "a message is delivered exactly when its closing packet arrives")
 	}
+}
+
+// c20R8: the send loop's "exhausted" signal.
+func c20R8(c *Ctx) {
+	rule := c.R.Rule("R8", "multi-channel delivery: MConnection.sendMsgPacket reports `exhausted` (true) only when no channel had pending data (least == nil) or the write failed; after a packet was written it reports false, so sendRoutine comes back for the other channels — a value computed from the served channel alone strands the messages queued on the others", 3)
+	f := c.Anchor(rule, "gemmill/p2p.(*MConnection).sendMsgPacket")
+	if f == nil {
+		return
+	}
+	nTrue, nFalse := 0, 0
+	for _, r := range f.Returns() {
+		v := f.ReturnValues(r)[0]
+		k, isConst := v.(*ssa.Const)
+		if !isConst || k.Value == nil {
+			c.R.Ob(rule, "return:constant", false, c.Pos(r), fname(f), "returns a computed value "+shorten(exprOf(v)))
+			continue
+		}
+		if k.Value.ExactString() == "true" {
+			nTrue++
+			ok := f.HasGuard(r, func(g string) bool {
+				return strings.HasSuffix(g, " == nil)") && strings.HasPrefix(g, "(phi(") || strings.Contains(g, "writeMsgPacketTo(") && strings.HasSuffix(g, "#1 != nil)")
+			})
+			c.R.Ob(rule, "return-true⊣nothing-pending-or-write-error", ok, c.Pos(r), fname(f), shorten(guardsText(f, r)))
+		} else {
+			nFalse++
+			ok := f.HasGuard(r, func(g string) bool { return strings.Contains(g, "writeMsgPacketTo(") && strings.HasSuffix(g, "#1 == nil)") })
+			c.R.Ob(rule, "return-false⊣packet-written", ok, c.Pos(r), fname(f), shorten(guardsText(f, r)))
+		}
+	}
+	c.R.Ob(rule, "returns", nTrue >= 2 && nFalse >= 1, c.P.Pos(f.F.Pos()), fname(f), fmt.Sprintf("%d true, %d false", nTrue, nFalse))
 }
